@@ -18,7 +18,7 @@ Definition style_map (s : bstyle) : bstyle := match s with Sinset => Sridge | So
 Definition bstyle_eqb (a b : bstyle) : bool := Nat.eqb (style_score a) (style_score b).
 
 (* computed border of one side of one box; the colour is an identifier (0 = transparent) *)
-Record border := mkb { b_style : bstyle; b_width : Q; b_color : nat }.
+Record border := mkb { b_style : bstyle; b_width : Q; b_color : Z }.
 
 Definition score : Type := (nat * Q * nat)%type.
 Definition score_of (b : border) : score :=
@@ -29,8 +29,8 @@ Definition score_lt (a b : score) : bool :=
   (h1 <? h2)%nat || ((h1 =? h2)%nat && (Qlt_bool w1 w2 || (Qeq_bool w1 w2 && (s1 <? s2)%nat))).
 
 Definition stored : Type := (score * border)%type.
-Definition weak_null : stored := ((0%nat, 0, 0%nat), mkb Snone 0 0).
-Definition strong_null : stored := ((1%nat, 0, 9%nat), mkb Shidden 0 0).
+Definition weak_null : stored := ((0%nat, 0, 0%nat), mkb Snone 0 0%Z).
+Definition strong_null : stored := ((1%nat, 0, 9%nat), mkb Shidden 0 0%Z).
 
 (* what happens to one edge: a contributor is offered (set_one_border) or the edge is forced to the strong
    null border (inside a spanning cell) *)
@@ -102,7 +102,7 @@ Definition contributors (evs : list event) : list border :=
 Definition has_reset (evs : list event) : bool := existsb (fun e => match e with EReset => true | _ => false end) evs.
 
 Definition border_eqb (a b : border) : bool :=
-  bstyle_eqb (b_style a) (b_style b) && Qeq_bool (b_width a) (b_width b) && Nat.eqb (b_color a) (b_color b).
+  bstyle_eqb (b_style a) (b_style b) && Qeq_bool (b_width a) (b_width b) && Z.eqb (b_color a) (b_color b).
 
 (* the first contributor that is at least as strong as every contributor *)
 Definition css_winner (cs : list border) : option border :=
